@@ -228,6 +228,67 @@ impl Ev {
         }
     }
 
+    /// digest of what a client can tell apart, with element ids renamed canonically (by order of first
+    /// appearance in results and contents): two buffers with equal logical contents must produce the same
+    /// value under the same calls, whatever their physical layout, history or garbage (C04). Excludes
+    /// addresses, the split point of as_slices, allocation counts, and the ORDER of callbacks.
+    pub fn digest_canon(&self, h: &mut u64, canon: &mut std::collections::HashMap<i64, i64>) {
+        fn m(canon: &mut std::collections::HashMap<i64, i64>, x: i64) -> i64 {
+            if x <= 0 {
+                return x;
+            }
+            let n = canon.len() as i64 + 1;
+            *canon.entry(x).or_insert(n)
+        }
+        fnv(h, self.op.as_bytes());
+        fnv(h, self.acc.as_bytes());
+        fnv_i(h, &[self.i, self.j, self.unw as i64, self.inj as i64, self.bs.1, self.be.1]);
+        fnv(h, self.bs.0.as_bytes());
+        fnv(h, self.be.0.as_bytes());
+        fnv_i(h, &self.vals);
+        // elements created during the call are numbered in creation order (the order of the user callbacks
+        // that made them), so that WHERE they end up is part of what is compared
+        for c in &self.cbs {
+            if matches!(c.k.name(), "clone" | "gen" | "iter") {
+                m(canon, c.id);
+            }
+        }
+        let ids: Vec<i64> = self.ids.iter().map(|x| m(canon, *x)).collect();
+        fnv_i(h, &ids);
+        fnv(h, self.ret.k.as_bytes());
+        let mut r: Vec<i64> = self.ret.ids.iter().map(|x| m(canon, *x)).collect();
+        if self.ret.k == "slices" {
+            r.extend(self.ret.ids2.iter().map(|x| m(canon, *x)));
+        } else {
+            fnv_i(h, &self.ret.ids2);
+        }
+        fnv_i(h, &r);
+        fnv_i(h, &[self.ret.n, self.ret.b as i64]);
+        fnv(h, self.ret.s.as_bytes());
+        for p in [&self.post, &self.post2] {
+            fnv_i(h, &[p.obs as i64, p.len, p.empty as i64, p.full as i64]);
+            let q: Vec<i64> = p.seq.iter().map(|x| m(canon, *x)).collect();
+            fnv_i(h, &q);
+            fnv_i(h, &p.vals);
+        }
+        for row in &self.rows {
+            fnv(h, row.acc.as_bytes());
+            let q: Vec<i64> = row.ids.iter().map(|x| m(canon, *x)).collect();
+            fnv_i(h, &q);
+        }
+        // callbacks as a multiset
+        let mut acc: u64 = 0;
+        for c in &self.cbs {
+            let mut x: u64 = 0xcbf29ce484222325;
+            fnv(&mut x, c.k.name().as_bytes());
+            let id = m(canon, c.id);
+            let src = if c.k.name() == "panic" { c.src } else { m(canon, c.src) };
+            fnv_i(&mut x, &[id, src]);
+            acc = acc.wrapping_add(x);
+        }
+        fnv(h, &acc.to_le_bytes());
+    }
+
     pub fn new(e: &'static str, op: &str) -> Ev {
         Ev {
             e,
